@@ -35,7 +35,8 @@ def build(g, sid, positions, SR, chans, deviant=None, has_SR=True, amp=True, off
                     chs = list(chans)
                     chs[i] = str(chs[i]) if isinstance(chs[i], int) else chs[i] + "x"
             else:
-                sr = SR * 2
+                # twice the rate, or a rate that differs only in the 6th significant digit
+                sr = SR * 2 if r.random() < 0.5 else SR * (1 + 2 ** -19)
         r.shuffle(chs)
         N = r.randint(4, 12)
         if r.random() < subs and has_SR and deviant is None:
@@ -57,7 +58,9 @@ def build(g, sid, positions, SR, chans, deviant=None, has_SR=True, amp=True, off
 
 
 def observe(sid, other):
-    return [{"op": "sq.check", "id": sid}, {"op": "sq.channels", "id": sid},
+    return [{"op": "sq.new", "id": "z"},        # an empty operand without any settings: + still gates on the other operand
+            {"op": "sq.add", "a": "z", "b": sid, "to": "sumz1"}, {"op": "sq.add", "a": sid, "b": "z", "to": "sumz2"},
+            {"op": "sq.check", "id": sid}, {"op": "sq.channels", "id": sid},
             {"op": "sq.forge", "id": sid, "delays": True, "filters": True, "time": False},
             {"op": "sq.add", "a": sid, "b": other, "to": "sum1"}, {"op": "sq.add", "a": other, "b": sid, "to": "sum2"},
             {"op": "tl.repvary", "seq": sid, "to": "rv", "lens": [0, 0, 0, 0, 0], "poss": [], "vars": []},
@@ -66,7 +69,7 @@ def observe(sid, other):
 
 def case(g, tier, ci):
     r = g.r
-    SR = r.choice([1, 10, 100, 2.5, 1e6])
+    SR = r.choice([1, 10, 100, 2.5, 1e6, 1e9])
     chans = r.sample([1, 2, 3, "A", "B"], r.randint(1, 3))
     k = r.randint(0, 5)
     if r.random() < 0.35:
